@@ -168,6 +168,93 @@ MAX_UNDECIDED = 6
 MAX_LOCAL_EDITS = 4
 
 
+PROBE_POOL = None
+
+
+def _pool():
+    from ..finite import AV, const_av
+    vals = ['abc', 'Hello World', '', 1, 0, 2, 3, -1, 10, 0.5, 2.5, None, True, False, '#N/A', '12', 'x']
+    out = [const_av(v) for v in vals]
+    out.append(AV('blank', sign='zero'))
+    out.append(const_av([1, 2, 3]))
+    out.append(const_av([[1, 2], [3, 4]]))
+    out.append(const_av([]))
+    return out
+
+
+def _differential(base, tmpl, name: str):
+    """None (cannot be evaluated), ('differs', arguments, base answer, template answer, comparable) or ('alike', comparable)"""
+    import itertools
+    import random
+    from ..finite import evaluator_for, Unknown, AbsRaise
+    fb, ft = base.members.get(name), tmpl.members.get(name)
+    if fb is None or ft is None or '.' in name:
+        return None
+    pb = [a.arg for a in fb.args.posonlyargs + fb.args.args if a.arg not in ('self', 'cls')]
+    pt = [a.arg for a in ft.args.posonlyargs + ft.args.args if a.arg not in ('self', 'cls')]
+    if len(pb) != len(pt) or fb.args.vararg or ft.args.vararg or len(pb) > 4 or not pb:
+        return None
+    pool = _pool()
+    combos = list(itertools.product(range(len(pool)), repeat=len(pb)))
+    if len(combos) > 1500:
+        random.Random(20).shuffle(combos)
+        combos = combos[:1500]
+
+    def answer(cp, args):
+        ev = evaluator_for(cp, max_depth=6)
+        try:
+            r = ev.call_method(name, list(args))
+        except Unknown:
+            return None
+        except AbsRaise as e:
+            return ('raises', e.exc)
+        except RecursionError:
+            return None
+        return ('value', _plain_av(ev, r))
+    comparable = 0
+    for idx in combos:
+        args = [pool[i] for i in idx]
+        a = answer(base, args)
+        if a is None:
+            continue
+        b = answer(tmpl, args)
+        if b is None:
+            continue
+        comparable += 1
+        if a != b:
+            return ('differs', ', '.join(_show_av(x) for x in args), _show_answer(a), _show_answer(b), comparable)
+    if comparable < 10:
+        return None
+    return ('alike', comparable)
+
+
+def _plain_av(ev, v):
+    v = ev.unbox(v)
+    if v.kind == 'none':
+        return None
+    if v.kind == 'blank':
+        return '<blank>'
+    if v.items is not None:
+        return (v.kind,) + tuple(_plain_av(ev, x) for x in v.items)
+    if v.val is not None and not isinstance(v.val, tuple):
+        return (type(v.val).__name__, v.val)
+    return repr(v)
+
+
+def _show_av(v):
+    if v.kind == 'blank':
+        return 'blank'
+    if v.kind == 'none':
+        return 'None'
+    if v.items is not None:
+        return '[' + ', '.join(_show_av(x) for x in v.items) + ']'
+    return repr(v.val)
+
+
+def _show_answer(a):
+    return f'raises {a[1]}' if a[0] == 'raises' else repr(a[1][1] if isinstance(a[1], tuple) and len(a[1]) == 2 and isinstance(a[1][0], str) and a[1][0] in ('int', 'float', 'str', 'bool') else a[1])
+
+
 def run(run: Run):
     from ..canon import canonical, copy_context, edit_script
     from ..inline import inline_methods, members_resolver
@@ -273,6 +360,24 @@ def run(run: Run):
             run.note(f'C20.R2 UNDECIDED {n}: the two copies are written differently ({len(es)} differences, first structural one at '
                      f'{path}: base `{show(xa)[:80]}` vs template `{show(xb)[:80]}`); their agreement is neither established nor refuted '
                      f'by tree comparison')
+    # members written differently: both bodies are evaluated (engine F) on the same probe arguments; a probe on which the two
+    # copies answer differently is a witness that they disagree
+    still = []
+    for n in undecided:
+        w = _differential(base, tmpl, n)
+        if w is None:
+            still.append(n)
+            continue
+        if w[0] == 'differs':
+            _, args_txt, rb_, rt_, n_ok = w
+            run.bad('C20.R2', n, 'answers-differ',
+                    f'the two copies of {n} are written differently and answer differently: {n}({args_txt}) gives {rb_} in the importable '
+                    f'base class and {rt_} in the emitted runtime', loc=tmpl.loc(mt[n]), facts={'arguments': args_txt, 'base': rb_, 'template': rt_})
+        else:
+            run.note(f'C20.R2 {n}: written differently; the two bodies answer alike on {w[1]} probe argument lists (agreement on all '
+                     f'arguments is not established)')
+            still.append(n)
+    undecided = still
     if undecided:
         print(f'UNDECIDED: property=C20 members={",".join(undecided)} (the copies are spelled differently beyond the canonical form; '
               f'agreement of these members is not covered by this run)')
